@@ -363,6 +363,13 @@ ODD_ITEMS = [
     ("derive", "", "#[derive_ex(Clone)] fn f() {}"),
     ("derive", "", "#[derive_ex(Ord, PartialOrd, Eq, PartialEq, Hash)] struct S { #[ord(key = $.0)] #[hash(ignore)] a: (u8, u8) }"),
     ("derive", "", ""),
+    # the type's own where-clause written with and without a trailing comma, next to bound(...) predicates and types at every level
+    ("attr", "Clone(bound(T: Clone)), Default", "struct S<T>(T) where T: Default;"),
+    ("attr", "Clone(bound(T: Clone, ..)), Default, bound(T)", "struct S<T>(T) where T: Default,;"),
+    ("attr", "Debug, bound(T: ::core::fmt::Debug)", "enum E<T> where T: Copy { A(T), #[derive_ex(Debug(bound(T: Clone)))] B { #[debug(bound(T: Sized))] x: T } }"),
+    ("attr", "PartialEq, Hash, PartialOrd", "#[eq(bound(T: PartialEq))] #[ord(bound(T: PartialOrd, ..))] #[hash(bound(T))] struct S<'a, T: 'a, const N: usize> where &'a T: Sized, [u8; N]: Default { a: &'a T, b: [u8; N] }"),
+    ("derive", "", "#[derive_ex(Clone, Default, bound(T: Clone + Default))] struct S<T> where T: Sized { a: T }"),
+    ("attr", "Add, Neg, AddAssign(bound(T: Copy + ::core::ops::AddAssign))", "struct S<T>(T, T) where T: Copy;"),
     ("attr", "Clone, Debug, PartialEq, Hash, dump", "struct Six<A, B, C, D, E, F> { a: A, b: B, c: C, d: D, e: E, f: F, g: Vec<A>, h: Option<B> }"),
     ("attr", "Clone, Default, PartialOrd", "enum Six<A, B, C, D, E, F> { V(A, B, C), W { d: D, e: E, f: F } }"),
     ("derive", "", "#[derive_ex(Clone, Debug, Eq, PartialEq, Ord, PartialOrd)] struct Six<A, B, C, D, E, F>(A, B, C, D, E, F);"),
